@@ -70,7 +70,7 @@ func genDefs(out string) map[string]string {
 var genNames = []string{"gen_attach_batch_z", "gen_attach_batch", "gen_terminate_batch_z", "gen_terminate_batch", "gen_max_tries",
 	"gen_esc_key", "gen_force_key", "gen_nodelete_key", "gen_default_group", "gen_lifecycle_on_demand", "gen_lifecycle_spot", "gen_default_taint_effect",
 	"gen_tag_table", "gen_json_tags", "gen_yaml_tags", "gen_aws_tag_table", "gen_aws_json_tags", "gen_aws_yaml_tags",
-	"gen_documented_keys", "gen_documented_aws_keys", "gen_rules", "gen_rule_src", "gen_rule_msg", "gen_validate", "gen_untranslated"}
+	"gen_documented_keys", "gen_documented_aws_keys", "gen_rules", "gen_rule_src", "gen_rule_msg", "gen_validate", "gen_rules_untranslated", "gen_untranslated"}
 
 func TestGenDeterministicAndComplete(t *testing.T) {
 	repo := scratchRepo(t, nil)
@@ -86,7 +86,7 @@ func TestGenDeterministicAndComplete(t *testing.T) {
 		t.Fatal("output differs between two runs")
 	}
 	for _, want := range []string{"Definition gen_attach_batch_z : Z := ", "Definition gen_esc_key : string := ", "Definition gen_rules : list (cfg -> bool) := [",
-		"Definition gen_documented_keys", "Definition gen_tag_table", "gen_default_taint_effect", "Definition gen_untranslated : list string := []."} {
+		"Definition gen_documented_keys", "Definition gen_tag_table", "gen_default_taint_effect", "Definition gen_rules_untranslated : list string := [].", "Definition gen_untranslated : list string := []."} {
 		if !strings.Contains(a, want) {
 			t.Errorf("output lacks %q", want)
 		}
@@ -134,7 +134,8 @@ func TestGenRejectsOutsideGrammar(t *testing.T) {
 				t.Errorf("%s: %s: %q (a statement outside the grammar must not cost any item)", name, n, defs[n])
 			}
 		}
-		if strings.Contains(out, "Definition gen_untranslated : list string := [].") || !strings.Contains(out, "\"gen_rules: pkg/controller/node_group.go:") {
+		if strings.Contains(out, "Definition gen_untranslated : list string := [].") || !strings.Contains(out, "\"gen_rules: pkg/controller/node_group.go:") ||
+			strings.Contains(out, "Definition gen_rules_untranslated : list string := [].") {
 			t.Errorf("%s: gen_untranslated does not list the statement", name)
 		}
 		if name != "statement" && !strings.Contains(out, "(fun c => true)") {
@@ -175,7 +176,7 @@ func TestGenItemsAreIndependent(t *testing.T) {
 			[]string{"gen_default_taint_effect"}, "gen_default_taint_effect: pkg/k8s/taint.go:"},
 		// refactoring R4: the frame of ValidateNodeGroup is not the one the translator reads
 		{"validator frame", "pkg/controller/node_group.go", rep("\tvar problems []error\n", "\tproblems := []error{}\n"),
-			[]string{"gen_rules", "gen_rule_src", "gen_rule_msg", "gen_validate"}, "gen_rules: pkg/controller/node_group.go:"},
+			[]string{"gen_rules", "gen_rule_src", "gen_rule_msg", "gen_validate", "gen_rules_untranslated"}, "gen_rules: pkg/controller/node_group.go:"},
 		{"constant out of range", "pkg/cloudprovider/aws/aws.go", rep("\tbatchSize = 20\n", "\tbatchSize = 200000\n"),
 			[]string{"gen_attach_batch_z", "gen_attach_batch"}, "gen_attach_batch_z: pkg/cloudprovider/aws: constant batchSize is not an integer in [0, 100000]"},
 		{"constant gone", "pkg/k8s/taint.go", rep("ToBeForceRemovedByAutoscalerKey =", "ToBeForceRemovedByAutoscalerKeyX ="),
